@@ -320,3 +320,9 @@ Theorem C09_disjoint_under_extension : forall cat ps qs a, incl ps qs ->
   In a (expand cat ps) -> In a (expand_not cat qs) -> False.
 Proof. exact expand_disjoint_mono. Qed.
 Print Assumptions C09_disjoint_under_extension.
+
+(* "*" anywhere in the list: Action is the whole catalogue (sorted, duplicate-free), NotAction is empty *)
+Theorem C09_star_is_everything : forall cat ps, In [STAR] ps ->
+  expand cat ps = nodup_sort cat /\ expand_not cat ps = [].
+Proof. exact expand_star. Qed.
+Print Assumptions C09_star_is_everything.
